@@ -9,6 +9,9 @@ package k8s
 // limit-2 (limit >= 3: smaller limits are outside the contract).  Under it every
 // slice of the escaped log fragment is in range for every event content: an empty
 // string, a non-string value, fragments shorter than the "\n" marker.
+// The joined value handed to the event (an unsafe view, no copy) lies inside the
+// event's own buffer, below its length - never in the action's reusable join
+// buffer, which the next chunks of the stream overwrite.
 
 //@ func (*MultilineAction).resetLogBuf
 //@   requires len(p.eventBuf) >= 1
@@ -33,6 +36,7 @@ package k8s
 //@   callee MutateToBool(b)
 //@     preserves MultilineAction, Event
 //@   callee MutateToEscapedString(s)
+//@     requires uf_viewref(s) == ref(event.Buf) && off(event.Buf) <= uf_viewoff(s) && uf_viewoff(s) + len(s) <= off(event.Buf) + len(event.Buf)
 //@     preserves MultilineAction, Event
 //@   callee Dig(path)
 //@     pure
@@ -49,8 +53,6 @@ package k8s
 //@   callee AppendEscapedString(out) (r)
 //@     pure
 //@     ensures isnil(r) || fresh(r)
-//@   callee ByteToStringUnsafe(b)
-//@     pure
 //@   callee EncodeToString()
 //@     pure
 //@   callee IncMaxEventSizeExceeded(s)
